@@ -108,7 +108,7 @@ func Main(defs []PropDef) {
 				}()
 				d.Run(c2)
 			}()
-			if n := c.AdoptPasses(c2); n > 0 {
+			if n := c.AdoptPassesKnown(c2, known); n > 0 {
 				c.Note("%d obligations discharged on the helper-expanded view of the tree", n)
 			}
 		}
